@@ -7,7 +7,10 @@ Rec == ndJsonDeserialize(IOEnv.TRACE)
 VARIABLES i, bad
 
 W(e, n, l) == [neg |-> e[n], l |-> <<e[l][1], e[l][2], e[l][3]>>]
+\* cmpw: a safe integer compared with ANY wide integer (w may lie outside the safe range): the same order as the underlying integers
 Ok(e) == IF e.ev = "value" THEN Conforms(W(e, "neg", "l"), e.obs)
+         ELSE IF e.ev = "cmpw" THEN LET o == Cmp(W(e, "neg", "l"), W(e, "w_neg", "w_l")) IN
+                e.cmp = o /\ e.eq = (o = "Equal") /\ e.lt = (o = "Less") /\ e.ge = (o # "Less")
          ELSE e.cmp = Cmp(W(e, "neg", "l"), W(e, "w_neg", "w_l")) /\ (e.eq = (Cmp(W(e, "neg", "l"), W(e, "w_neg", "w_l")) = "Equal"))
 
 Init == i = 1 /\ bad = <<>>
